@@ -584,6 +584,11 @@ class YP(object):
             pass
         finally:
             sys.setrecursionlimit(old_recursionlimit)
+            # however the evaluation ended, abandon the query, so that the bindings of
+            # an answer that was being processed do not outlive this call
+            close = getattr(query, 'close', None)
+            if close is not None:
+                close()
         return result
 
     def match_dynamic(self, name, args):
